@@ -680,6 +680,32 @@ pixman_image_composite32 (pixman_op_t      op,
 	dest_format, info.dest_flags,
 	&imp, &func);
 
+#ifdef PIXMAN_VERIF
+    if (_pixman_verif_sink)
+    {
+	pixman_verif_dispatch_t ev;
+
+	ev.op_in = op;
+	ev.op_out = info.op;
+	ev.src_format = src_format;
+	ev.mask_format = mask_format;
+	ev.dest_format = dest_format;
+	ev.src_flags = info.src_flags;
+	ev.mask_flags = info.mask_flags;
+	ev.dest_flags = info.dest_flags;
+	ev.x1 = extents.x1;
+	ev.y1 = extents.y1;
+	ev.x2 = extents.x2;
+	ev.y2 = extents.y2;
+	ev.imp = imp;
+	ev.func = (const void *)func;
+	ev.src = src;
+	ev.mask = mask;
+	ev.dest = dest;
+	PIXMAN_VERIF_EVENT ("Dispatch", &ev);
+    }
+#endif
+
     info.src_image = src;
     info.mask_image = mask;
     info.dest_image = dest;
